@@ -1,4 +1,4 @@
-// Demonstrations of the ten genuine defects (D1..D10, DESIGN.md §4) found in
+// Demonstrations of the eleven genuine defects (D1..D11, DESIGN.md §4) found in
 // the pinned blugelabs/ice tree while deriving the static rules.  Triage only:
 // the *checks* are the static rules of icecheck.  Copy this file into a scratch
 // copy of /repo (package ice) and run `go test -run TestDefect`; every test
@@ -368,5 +368,45 @@ func TestDefectD10RepeatedFieldLocationField(t *testing.T) {
 		if l.Field() != "title" {
 			t.Fatalf("location %d reports field %q, want title", i, l.Field())
 		}
+	}
+}
+
+// D11 (C08/C13): a postings list that was re-initialised for an unknown field
+// (or an absent term) into the caller's reusable list has no segment and
+// keeps the emptied bitmap of its previous use; iterator() tested the bitmap
+// only for nil and dereferenced p.sb when freq/norm/locations were requested.
+func TestDefectD11UnknownFieldReusedList(t *testing.T) {
+	seg, err := buildTestSegmentMulti()
+	if err != nil {
+		t.Fatal(err)
+	}
+	dict, err := seg.Dictionary("desc")
+	if err != nil {
+		t.Fatal(err)
+	}
+	pl, err := dict.PostingsList([]byte("thing"), nil, nil) // general encoding: two documents
+	if err != nil {
+		t.Fatal(err)
+	}
+	if pl.Count() == 0 {
+		t.Fatalf("setup: expected postings for desc:thing")
+	}
+	unknown, err := seg.Dictionary("no-such-field")
+	if err != nil {
+		t.Fatal(err)
+	}
+	pl2, err := unknown.PostingsList([]byte("thing"), nil, pl) // reuse the list
+	if err != nil {
+		t.Fatal(err)
+	}
+	if pl2.Count() != 0 {
+		t.Fatalf("expected an empty list, got %d", pl2.Count())
+	}
+	itr, err := pl2.Iterator(true, true, true, nil) // nil pointer dereference before the fix
+	if err != nil {
+		t.Fatal(err)
+	}
+	if p, err := itr.Next(); err != nil || p != nil {
+		t.Fatalf("expected no postings, got %v %v", p, err)
 	}
 }
